@@ -122,6 +122,14 @@ CLAIMED = {
         TECH, 'DESIGN.md §8 C20'),
 }
 
+import glob as _glob
+for _f in sorted(_glob.glob(os.path.join(HERE, 'tools', 'levels', 'C*.json'))):
+    _d = json.load(open(_f))
+    _note = _d['note']
+    if 'Coq 8.16.1 kernel' not in _note:
+        _note += NOTE_COMMON
+    CLAIMED[os.path.basename(_f)[:-5]] = (_d['text'], _note, TECH, _d.get('design_ref', 'DESIGN.md §8'))
+
 NOT_YET = 'not claimed yet: model/theorems/correspondence for this property are still being built (DESIGN.md §10); it is applicable'
 
 
